@@ -157,7 +157,11 @@ class Tree(object):
             for k, v in spec["prices"].items():
                 self.data[k] = np.array(v[:n], dtype=float)
         self.spread = spec.get("spread")
-        if self.spread is not None:
+        if isinstance(self.spread, (list, tuple)):
+            # a spread that changes from date to date (same for every ticker)
+            col = np.array([float(x) for x in self.spread[: len(self.data.index)]])
+            kw["bidoffer"] = pd.DataFrame({c: col for c in self.data.columns}, index=self.data.index)
+        elif self.spread is not None:
             kw["bidoffer"] = pd.DataFrame(float(self.spread), index=self.data.index, columns=self.data.columns)
         self.kw = kw
         self.spy = None
@@ -187,6 +191,11 @@ class Tree(object):
             self.apply(op)
 
     # ------------------------------------------------------------------
+    def spread_now(self):
+        if isinstance(self.spread, (list, tuple)):
+            return float(self.spread[self.i])
+        return self.spread
+
     def node(self, path):
         n = self.root
         for p in path:
@@ -233,6 +242,10 @@ class Tree(object):
             n.transact(float(op[2]), update=upd, price=price)
         elif k == "stransact":  # ["stransact", path, q]  strategy-level push down (FI)
             self.node(op[1]).transact(float(op[2]), update=upd)
+        elif k == "seq":  # ["seq", [ops...]]  ordinary (update=True) ops back to back, nothing read in between
+            for o in op[1]:
+                if not self.apply(o):
+                    return False
         elif k == "batch":  # ["batch", [ops...]]  update=False ops, then one root update
             for o in op[1]:
                 if not self.apply(o, upd=False):
